@@ -80,6 +80,12 @@ pub const SYMBOLS: &[(&str, Sym)] = &[
     ("empty-tuple-variant", Sym::Item("#[typeshare]\n#[serde(tag = \"t\", content = \"c\")]\npub enum EdgeEmptyVariant { V(), W(u32) }\n")),
     ("empty-enum", Sym::Item("#[typeshare]\npub enum EdgeEmptyEnum {}\n")),
     ("empty-tagged-enum", Sym::Item("#[typeshare]\n#[serde(tag = \"t\", content = \"c\")]\npub enum EdgeEmptyTagged {}\n")),
+    ("enum-empty-struct-variant", Sym::Item("#[typeshare]\npub enum EdgeEsv { Connected, Idle {} }\n")),
+    ("enum-empty-struct-variant-tagged", Sym::Item("#[typeshare]\n#[serde(tag = \"t\", content = \"c\")]\npub enum EdgeEsvT { Connected, Idle {}, Other(u32) }\n")),
+    ("enum-struct-variant-all-fields-skipped", Sym::Item("#[typeshare]\npub enum EdgeAfs { Ready, Running { #[serde(skip)] started_at: u32, #[typeshare(skip)] other: String } }\n")),
+    ("enum-struct-variant-all-fields-skipped-tagged", Sym::Item("#[typeshare]\n#[serde(tag = \"t\", content = \"c\")]\npub enum EdgeAfsT { Ready, Running { #[serde(skip)] started_at: u32 } }\n")),
+    ("enum-only-empty-tuple-and-struct-variants", Sym::Item("#[typeshare]\npub enum EdgeOnlyEmpty { A {}, B {} }\n")),
+    ("struct-all-fields-skipped", Sym::Item("#[typeshare]\npub struct EdgeAllSkipped { #[serde(skip)] pub a: u32, #[typeshare(skip)] pub b: u32 }\n")),
     ("enum-discriminants", Sym::Item("#[typeshare]\npub enum EdgeDisc { A = 1, B = 1 << 4 }\n")),
     ("struct-lifetime-const-generics", Sym::Item("#[typeshare]\npub struct EdgeGen<'a, const N: usize, T: Clone = u32> where T: Copy { pub a: &'a T }\n")),
     ("typeshare-on-union", Sym::Item("#[typeshare]\npub union EdgeUnion { a: u32, b: f32 }\n")),
